@@ -422,6 +422,7 @@ static std::string mkid(std::string const& idb, int len) { return idb + ",len=" 
 // ---------------------------------------------------------------------------------------------
 // what the oracle knows about one printed value (independent of the buffer length)
 
+static bool model_descale_headroom_exhausted(Big sig, int radix, int e, Big const& M);
 struct Subject {
     const char* kind = "integer";  // integer | scaled | seam
     bool scaled = false;
@@ -668,7 +669,12 @@ static void check14_scaled(Subject const& s, int len, CallRes const& r, std::str
     }
     if (must_be_exact && !exact) {
         tally.add("inexact_although_fits");
-        vf::violation(std::string("value/inexact_although_expansion_fits/") + layout + "/" + region(s, len), id(), id() + ": text " + show(t) + ", exact value " + truth() + " (" + std::to_string(ex.sig()) + " significant digits, complete text " + std::to_string(s.full_len) + " chars, buffer " + std::to_string(len) + ")");
+        std::string hl;
+        if (s.scale && s.scale->e < 0) {
+            Big const sigmax = s.repdigits > 63 ? Big::pow2(s.repdigits) - Big(1) : Big(vals::max_v<i64>());
+            if (model_descale_headroom_exhausted(s.mag, s.scale->radix, s.scale->e, sigmax)) hl = "/descale_headroom_exhausted";
+        }
+        vf::violation(std::string("value/inexact_although_expansion_fits/") + layout + "/" + region(s, len) + hl, id(), id() + ": text " + show(t) + ", exact value " + truth() + " (" + std::to_string(ex.sig()) + " significant digits, complete text " + std::to_string(s.full_len) + " chars, buffer " + std::to_string(len) + ")");
         return;
     }
     bool trailing_point = p.has_point && p.fp.empty() && !p.has_exp;
@@ -828,6 +834,22 @@ static bool model_descale_stuck(Big sig, int radix, int e, Big const& M)
             return true;
     }
     return true;
+}
+
+// defect model of KF-C14-1 for negative exponents: the intended descale loop on unbounded integers; true if at some step a
+// factor of ten was needed while the significand already exceeded max/10 (the library then drops precision instead)
+static bool model_descale_headroom_exhausted(Big sig, int radix, int e, Big const& M)
+{
+    if (e >= 0 || radix == 10) return false;
+    Big const ten(10), lim = M / ten, rad(radix);
+    for (int in_exp = e; in_exp != 0; ++in_exp) {
+        for (int guard = 0; guard < 200 && !(sig % rad).is_zero(); ++guard) {
+            if (sig > lim) return true;
+            sig = sig * ten;
+        }
+        sig = sig / rad;
+    }
+    return false;
 }
 
 struct HangModel {
